@@ -257,12 +257,37 @@ def family_types(tier, seed, n=None, reports=False, options=True):
 
 
 def dup_names_risk(shape):
-    """an unbounded bin array over several ranges names multi-value elements by global index and single values by
-    local index: two bins of one coverpoint can get the same name"""
+    """a one-bin-per-value collection made of several contiguous pieces names multi-value pieces by global index and
+    single values by local index: two bins of one coverpoint can get the same name (known finding C13-duplicate-bin-names)"""
+    def vals_of(ranges):
+        v = set()
+        for r in ranges:
+            v.update(range(r[0], r[1] + 1))
+        return v
+
+    def runs(vs):
+        vs = sorted(vs)
+        return sum(1 for i, x in enumerate(vs) if i == 0 or x != vs[i - 1] + 1)
     for cp in shape["cps"]:
-        for b in cp.get("bins", []):
-            if b["kind"] == "array" and b.get("n", 0) == 0 and len(b["ranges"]) > 1:
+        ex = set()
+        for b in cp.get("ign", []) + cp.get("ill", []):
+            ex |= vals_of(b["ranges"])
+        if not cp.get("bins"):
+            vd = shape["vars"][cp["var"]]
+            if vd.get("enum"):
+                continue
+            w, sg = vd["w"], vd.get("signed", False)
+            lo, hi = (-(1 << (w - 1)), (1 << (w - 1)) - 1) if sg else (0, (1 << w) - 1)
+            vs = set(range(lo, hi + 1)) - ex
+            if cp.get("abm", 64) >= len(vs) and runs(vs) >= 2:
                 return True
+            continue
+        for b in cp["bins"]:
+            if b["kind"] == "array":
+                vs = vals_of(b["ranges"]) - ex
+                n = b.get("n", 0)
+                if (n == 0 or n >= len(vs)) and runs(vs) >= 2:
+                    return True
     return False
 
 
